@@ -47,9 +47,11 @@ def check(ctx):
     ctx.check(ok, "T6-timeout", mi, "implicit framer need: state framer.me.state.<name> field value, passed to makeDirectNeed in order",
               "timeout/repeat must test the running framer's own clock share")
     nc = ctx.fn("needing", "Need.Check")
-    ge = [n for n in ast.walk(nc) if isinstance(n, ast.Compare) and any(isinstance(o, ast.GtE) for o in n.ops)
-          and len(n.ops) == 1 and dotted(n.left) == "state" and dotted(n.comparators[0]) == "goal"]
-    ctx.check(bool(ge), "T6-timeout", nc, "Need.Check implements '>=' as state >= goal", "comparison table (see C21)")
+    # by partial evaluation (see C21): what Check returns for the word '>=' is state >= goal, in either orientation
+    from ..rules import peval, FuncView as _FV
+    got = {src(e).replace(" ", "") for k, e, h in peval(_FV(ctx, nc, exc="calls"), {"comparison": ">="}) if k == "return" and e is not None}
+    ctx.check(bool(got) and got <= {"state>=goal", "goal<=state"}, "T6-timeout", nc, "Need.Check implements '>=' as state >= goal (%s)" % sorted(got),
+              "comparison table (see C21)")
 
 
 def _fold(e):
